@@ -19,13 +19,13 @@ inductive Atom where
   | enum (cls : String) (member : String)
   | uuid (n : Nat)
   | other (tag : String)
-  deriving Repr, BEq, DecidableEq, Inhabited
+  deriving Repr, DecidableEq, Inhabited
 
 inductive PyVal where
   | atom (a : Atom)
   | list (xs : List Atom)
   | tuple (xs : List Atom)
-  deriving Repr, BEq, DecidableEq, Inhabited
+  deriving Repr, DecidableEq, Inhabited
 
 instance : Coe Atom PyVal := ⟨PyVal.atom⟩
 
@@ -42,7 +42,7 @@ inductive PyErr where
   | stopIteration | generic
   | os (errno : Nat)
   | unmodelled (what : String)
-  deriving Repr, BEq, DecidableEq, Inhabited
+  deriving Repr, DecidableEq, Inhabited
 
 /-- Python `==` between scalars as far as maf-lib relies on it
     (`True == 1`; everything else structural; floats compare by token). -/
